@@ -83,7 +83,8 @@ class Axioms:
         return En(ty, vs)
 
     def site_key(self, ip, inst, bi):
-        return (tuple(ip.call_stack), bi)
+        # the chain of call sites (caller, block) down to the draw: two calls of the same sampler are different sites
+        return (tuple(ip.site_stack), tuple(ip.call_stack[-1:]), bi)
 
     def draw(self, ip, inst, bi, kind, generic, specials):
         """A draw from the RNG at this site: `generic` excludes the special points; `specials` are the single-word events."""
@@ -380,7 +381,7 @@ def h_pred(name):
         if name == "is_normal":
             # zero is not normal
             pass
-        return Bo(not yes.is_bottom(), not no.is_bottom(), ("pred", nm, (pa, a)), ip.stamp), st
+        return Bo(not yes.is_bottom(), not no.is_bottom(), ("pred", nm, (pa, a)), ip.stamp, (inst["key"] if inst else None, bi)), st
     return h
 
 
@@ -869,7 +870,7 @@ def h_contains(ax, ip, inst, fid, bi, st, t, fn, args, argpl, dty):
         if isinstance(lo, type(item)) and isinstance(hi, type(item)) and isinstance(item, (Fl, In)):
             b1 = ip.binop("Le", lo, item, None, pitem, False, inst, bi, None)
             b2 = ip.binop("Le", item, hi, pitem, None, False, inst, bi, None)
-            return Bo(b1.t and b2.t, b1.f or b2.f, ("and", b1.origin, b2.origin), ip.stamp), st
+            return Bo(b1.t and b2.t, b1.f or b2.f, ("and", b1.origin, b2.origin), ip.stamp, (inst["key"] if inst else None, bi)), st
     return Bo(True, True), st
 
 
@@ -887,6 +888,10 @@ TRAIT_AXIOMS = {
     ("Float", "min_value"): h_const(lambda tt: V.fl_neg(_fmax(tt))), ("Float", "min_positive_value"): h_const(_fminpos),
     ("Float", "epsilon"): h_const(_feps),
     ("Bounded", "max_value"): h_const(lambda tt: _fmax(tt) if tt and tt["k"] == "float" else In(In.of_type(tt["bits"], tt["signed"]).hi, In.of_type(tt["bits"], tt["signed"]).hi, tt["bits"], tt["signed"])),
+    ("FloatConst", "PI"): h_const(lambda tt: Fl.point(3.141592653589793)), ("FloatConst", "E"): h_const(lambda tt: Fl.point(2.718281828459045)),
+    ("FloatConst", "FRAC_PI_2"): h_const(lambda tt: Fl.point(1.5707963267948966)), ("FloatConst", "TAU"): h_const(lambda tt: Fl.point(6.283185307179586)),
+    ("FloatConst", "SQRT_2"): h_const(lambda tt: Fl.point(1.4142135623730951)), ("FloatConst", "LN_2"): h_const(lambda tt: Fl.point(0.6931471805599453)),
+    ("FloatConst", "FRAC_1_SQRT_2"): h_const(lambda tt: Fl.point(0.7071067811865476)), ("FloatConst", "FRAC_2_SQRT_PI"): h_const(lambda tt: Fl.point(1.1283791670955126)),
     ("Float", "ln"): h_unary(V.fl_ln), ("Float", "exp"): h_unary(V.fl_exp), ("Float", "sqrt"): h_unary(V.fl_sqrt),
     ("Float", "floor"): h_unary(V.fl_floor), ("Float", "ceil"): h_unary(V.fl_ceil), ("Float", "abs"): h_unary(V.fl_abs),
     ("Float", "recip"): h_unary(V.fl_recip), ("Float", "tan"): h_unary(V.fl_tan), ("Float", "powf"): h_binary(V.fl_pow),
